@@ -50,9 +50,12 @@ type Chain struct {
 	calls   []Call
 	// Fault, if set, is consulted before every RPC call (call index, method); a non-nil error is
 	// returned to the client instead of executing the call.
-	Fault  func(n int, method string) error
-	server *rpc.Server
-	client *ethclient.Client
+	Fault func(n int, method string) error
+	// LenientInvertedRange makes eth_getLogs answer an inverted block range (from > to) with an
+	// empty result instead of an error; both behaviours exist among Ethereum nodes.
+	LenientInvertedRange bool
+	server               *rpc.Server
+	client               *ethclient.Client
 }
 
 func NewChain(genesisTime uint64) *Chain {
@@ -329,6 +332,9 @@ func (a *api) GetLogs(_ context.Context, arg FilterArg) ([]types.Log, error) {
 		to = uint64(*arg.ToBlock)
 	}
 	if from > to {
+		if a.c.LenientInvertedRange {
+			return out, nil
+		}
 		return nil, fmt.Errorf("invalid block range params")
 	}
 	if to > head.Number() {
